@@ -13,6 +13,8 @@ Candidate kinds
   echo    : files -> `ironplcc echo <file>`;   expect_contains / expect_not_contains / expect "reject"
   tokens  : file  -> `ironplcc tokenize`;      expect list of [type, line, col] for selected token texts
   lsp     : scripted JSON-RPC session -> expectations on published diagnostics / semantic tokens
+  lsp_protocol: arbitrary requests / notifications / client responses, then shutdown + exit: every request answered once
+             with its id, nothing else answered, exit status 0 (C12)
   encodings: one text in several encodings -> same verdict, codes, positions, token positions (C14)
   cli     : list of invocations -> exit status, the line OK and coded diagnostics must agree (C13), expected status, same_as
 """
@@ -135,6 +137,101 @@ def lsp_session(binp, steps, cwd):
     return out
 
 
+
+def lsp_protocol_session(binp, steps, cwd):
+    """C12: drives `ironplcc lsp --stdio` with arbitrary requests / notifications / client responses, then shutdown and
+    exit. Returns (frames received, exit status or None, error)."""
+    import threading, queue
+    p = subprocess.Popen([binp, "lsp", "--stdio"], cwd=cwd, stdin=subprocess.PIPE, stdout=subprocess.PIPE, stderr=subprocess.DEVNULL)
+    q = queue.Queue()
+
+    def reader():
+        try:
+            while True:
+                hdr = b""
+                while not hdr.endswith(b"\r\n\r\n"):
+                    ch = p.stdout.read(1)
+                    if not ch:
+                        q.put(None)
+                        return
+                    hdr += ch
+                n = int(re.search(rb"Content-Length: (\d+)", hdr).group(1))
+                q.put(json.loads(p.stdout.read(n)))
+        except Exception:
+            q.put(None)
+    threading.Thread(target=reader, daemon=True).start()
+    frames = []
+    err = None
+
+    def send(msg):
+        b = json.dumps(msg).encode()
+        p.stdin.write(b"Content-Length: %d\r\n\r\n" % len(b) + b)
+        p.stdin.flush()
+
+    def wait_for(pred, timeout=10):
+        end = time.time() + timeout
+        while time.time() < end:
+            try:
+                m = q.get(timeout=max(0.05, end - time.time()))
+            except queue.Empty:
+                return None
+            if m is None:
+                return None
+            frames.append(m)
+            if pred(m):
+                return m
+        return None
+    sent_requests = []
+    try:
+        send({"jsonrpc": "2.0", "id": 1, "method": "initialize", "params": {"capabilities": {}, "processId": None, "rootUri": None}})
+        wait_for(lambda m: m.get("id") == 1)
+        frames.clear()
+        send({"jsonrpc": "2.0", "method": "initialized", "params": {}})
+        rid = 100
+        for st in steps:
+            if "request" in st:
+                rid += 1
+                method, params = st["request"]
+                sent_requests.append(rid)
+                send({"jsonrpc": "2.0", "id": rid, "method": method, "params": params})
+                if wait_for(lambda m, rid=rid: m.get("id") == rid and "method" not in m) is None:
+                    err = "request %d (%s) was not answered" % (rid, method)
+                    break
+            elif "notify" in st:
+                method, params = st["notify"]
+                send({"jsonrpc": "2.0", "method": method, "params": params})
+            elif "response" in st:
+                send({"jsonrpc": "2.0", "id": st["response"], "result": None})
+            elif "open" in st:
+                uri, text, ver = st["open"]
+                send({"jsonrpc": "2.0", "method": "textDocument/didOpen", "params": {"textDocument": {"uri": uri, "languageId": "st", "version": ver, "text": text}}})
+            elif "change" in st:
+                uri, texts, ver = st["change"]
+                send({"jsonrpc": "2.0", "method": "textDocument/didChange", "params": {"textDocument": {"uri": uri, "version": ver}, "contentChanges": [{"text": t} for t in texts]}})
+        if err is None:
+            sent_requests.append(9999)
+            send({"jsonrpc": "2.0", "id": 9999, "method": "shutdown", "params": None})
+            if wait_for(lambda m: m.get("id") == 9999 and "method" not in m) is None:
+                err = "shutdown was not answered"
+            send({"jsonrpc": "2.0", "method": "exit", "params": None})
+    except Exception as e:
+        err = "server died: %s" % e
+    status = None
+    try:
+        status = p.wait(timeout=10)
+    except subprocess.TimeoutExpired:
+        p.kill()
+        if err is None:
+            err = "server did not terminate after shutdown and exit"
+    # drain
+    time.sleep(0.1)
+    while not q.empty():
+        m = q.get()
+        if m is not None:
+            frames.append(m)
+    return frames, status, err, sent_requests
+
+
 def decode_tokens(data):
     """LSP relative encoding -> absolute [line, start, length, type]"""
     res = []
@@ -201,6 +298,28 @@ def run_candidate(c):
                     if (o["exit"] == 0) != (rc == 0) or o["codes"] != runs[-1]["codes"]:
                         bad.append("`%s`: verdict %s %s differs from `%s`: %s %s" % (what, rc, runs[-1]["codes"], " ".join(o["args"]), o["exit"], o["codes"]))
             obs = {"runs": runs}
+        elif kind == "lsp_protocol":
+            frames, status, err, sent = lsp_protocol_session(binp, c["steps"], d)
+            answers = [m.get("id") for m in frames if "id" in m and "method" not in m]
+            obs = {"responses": answers, "requests": sent, "exit_status": status, "error": err,
+                   "notifications": [m.get("method") for m in frames if "id" not in m][:20]}
+            if err:
+                bad.append(err)
+            for r in sent:
+                if answers.count(r) != 1:
+                    bad.append("request %s answered %d times" % (r, answers.count(r)))
+            for a in answers:
+                if a not in sent:
+                    bad.append("a response with id %s answers no request" % a)
+            for m in frames:
+                if "id" in m and "method" not in m and "result" not in m and "error" not in m:
+                    bad.append("response %s carries neither result nor error" % m.get("id"))
+            if status != 0:
+                bad.append("exit status %s after shutdown and exit, expected 0" % status)
+            for idx in c.get("expect_error", []):
+                m = [m for m in frames if m.get("id") == 101 + idx and "method" not in m]
+                if m and "error" not in m[0]:
+                    bad.append("request %d (unimplemented method) was answered with a result, expected an error" % (101 + idx))
         elif kind == "encodings":
             # C14: the same text stored in several encodings -> the same verdict, codes and positions (check and tokenize)
             text = c["text"]
